@@ -296,6 +296,35 @@ class Proc(object):
                                                           **self._opts(opts))
         return None
 
+    def op_gbatch(self, s, items):
+        """A caller script that extracts, (binarizes,) dumps and writes several grammars one
+        after the other in one process, dropping each before the next (batch use of the API).
+        Returns the dumps taken right before each write."""
+        G = self.repo.grammar
+        T = self.repo.trees
+        dumps = []
+        for it in items:
+            gram, lex = {}, {}
+            for j, sent in enumerate(it['tb']):
+                self.op_build(s, '_bt', sent, it.get('shuffle', 0) + j)
+                G.extract(s.env['_bt'], gram, lex)
+            out = gram
+            mode = it.get('mode')
+            if mode is not None:
+                kw = {}
+                if mode['reordering'] == 'none':
+                    kw['reordering'] = G.reordering_none
+                elif mode['reordering'] == 'optimal':
+                    kw['reordering'] = G.reordering_optimal
+                if mode.get('markov') is not None:
+                    kw['markov_opts'] = dict(mode['markov'])
+                out = G.binarize(gram, **kw)
+            dumps.append(dump_grammar(out, lex))
+            getattr(self.repo.grammaroutput, it['fmt'])(out, lex, self._p(it['dest']), it['enc'],
+                                                        **self._opts(it.get('opts')))
+            del gram, lex, out
+        return dumps
+
     def op_gcf(self, s, gvar):
         return bool(self.repo.grammaranalysis.is_contextfree(s.env[gvar][0]))
 
